@@ -10,12 +10,15 @@ pub struct MockStream {
     world: Arc<World>,
     registration: Registration,
     set_readiness: Mutex<Option<SetReadiness>>,
+    /// epoll's bookkeeping: registering twice, or modifying / removing a descriptor that is not
+    /// registered, is an error on a real socket
+    registered: std::sync::atomic::AtomicBool,
 }
 
 impl MockStream {
     pub fn new(world: Arc<World>) -> MockStream {
         let (registration, set_readiness) = Registration::new2();
-        MockStream { world, registration, set_readiness: Mutex::new(Some(set_readiness)) }
+        MockStream { world, registration, set_readiness: Mutex::new(Some(set_readiness)), registered: std::sync::atomic::AtomicBool::new(false) }
     }
 }
 
@@ -36,18 +39,27 @@ impl io::Write for MockStream {
 
 impl Evented for MockStream {
     fn register(&self, poll: &Poll, token: Token, interest: Ready, opts: PollOpt) -> io::Result<()> {
+        if self.registered.swap(true, std::sync::atomic::Ordering::SeqCst) {
+            return Err(io::Error::new(io::ErrorKind::AlreadyExists, "stream registered twice"));
+        }
         self.registration.register(poll, token, interest, opts)?;
         let sr = self.set_readiness.lock().unwrap().take();
         self.world.tr_register(sr, interest);
         Ok(())
     }
     fn reregister(&self, poll: &Poll, token: Token, interest: Ready, opts: PollOpt) -> io::Result<()> {
+        if !self.registered.load(std::sync::atomic::Ordering::SeqCst) {
+            return Err(io::Error::new(io::ErrorKind::NotFound, "reregister of a stream that is not registered"));
+        }
         self.world.tr_pre_reregister();
         self.registration.reregister(poll, token, interest, opts)?;
         self.world.tr_register(None, interest);
         Ok(())
     }
     fn deregister(&self, poll: &Poll) -> io::Result<()> {
+        if !self.registered.swap(false, std::sync::atomic::Ordering::SeqCst) {
+            return Err(io::Error::new(io::ErrorKind::NotFound, "deregister of a stream that is not registered"));
+        }
         #[allow(deprecated)]
         self.registration.deregister(poll)
     }
